@@ -274,14 +274,16 @@ def make_machine(ctx):
             a, ma = cands[i % len(cands)]
             k = k % ma.n
             V = ma.vals
+            # a month index is a Python int, or what numpy hands back (np.int64 from arange / argmax, np.int32): d picks which
+            key = [k, np.int64(k), np.int32(k), np.arange(ma.n)[k]][d % 4]
             if op == "getitem":
-                fn, exp = (lambda: a[k]), M(ma.base, "per", [x[k] for x in V])
+                fn, exp = (lambda: a[key]), M(ma.base, "per", [x[k] for x in V])
             elif op == "slice":
                 if k >= ma.n:
                     return
                 fn, exp = (lambda: a[k:]), M(ma.base, "each", [x[k:] for x in V])
             elif op == "get_month":
-                fn, exp = (lambda: a.get_month(k)), M(ma.base, "per", [x[k] for x in V])
+                fn, exp = (lambda: a.get_month(key)), M(ma.base, "per", [x[k] for x in V])
             elif op == "get_first_month":
                 fn, exp = (lambda: a.get_first_month()), M(ma.base, "per", [x[0] for x in V])
             elif op == "sum":
